@@ -121,8 +121,9 @@ func (sm *ShardManager) cleanupRoutine(ls *loadedShard, backupFrequency, backupC
 			verifYield("cl.fired", ls)
 			sm.logger.Debug().Str("shardDir", shardDir).Msg("Unloading shard")
 			ls.mu.Lock()
-			defer ls.mu.Unlock() // we commit to exiting the cleanup goroutine here
+			// we commit to exiting the cleanup goroutine here
 			if ls.shard == nil {
+				ls.mu.Unlock()
 				sm.logger.Debug().Str("shardDir", shardDir).Msg("Shard already unloaded")
 				return
 			}
@@ -150,9 +151,17 @@ func (sm *ShardManager) cleanupRoutine(ls *loadedShard, backupFrequency, backupC
 			verifYield("ev.closed", ls)
 			sm.logger.Debug().Str("shardDir", shardDir).Msg("Removing loaded shard")
 			ls.shard = nil
+			// Release the shard before taking the store lock. Collection
+			// deletion takes the store lock first and then the shard lock, so
+			// holding both here in the opposite order can deadlock.
+			ls.mu.Unlock()
 			verifYield("cl.lockStore", ls)
 			sm.shardLock.Lock()
-			delete(sm.shardStore, shardDir)
+			// The entry may have been removed by a deletion and replaced by a
+			// newly loaded shard in the meantime, only remove our own.
+			if sm.shardStore[shardDir] == ls {
+				delete(sm.shardStore, shardDir)
+			}
 			sm.shardLock.Unlock()
 			// ---------------------------
 			return
